@@ -21,7 +21,7 @@ REQUIRED_COUNTERS = ["boundary_pixels_checked_exactly", "argument_shadow_checks"
 
 
 def plan(tier, seed):
-    return [{"shard": i, "n_shards": 16, "reps": 6 if tier == "quick" else 200, "nsel": 50 if tier == "quick" else 1300}
+    return [{"shard": i, "n_shards": 16, "reps": 6 if tier == "quick" else 1500, "nsel": 50 if tier == "quick" else 15000}
             for i in range(16)]
 
 
